@@ -17,13 +17,18 @@ CONSTANTS Budget,     \* total_timesteps
           MaxEpLen,
           WarmAct,    \* steps with index < WarmAct explore
           WarmLearn,  \* no update at steps with index < WarmLearn
+          Rows,       \* rows of action values the routine's estimate may hold at an observation (C13 loop clause;
+                      \* a singleton switches the estimate model off: no extra branching)
           DEV         \* set of enabled deviation names (empty = strict design)
 
 VARIABLES pc, phase, ep, t, last, cur, cond, pend, res, stored, produced,
-          step, executed, epsDone, updates, returned
+          step, executed, epsDone, updates, returned,
+          row,      \* action values of the CURRENT estimate at the observation the environment returned last
+          choice,   \* action (1-based index into row) the loop is about to pass to the environment; 0 = an explored one
+          carried   \* choice made at the successor BEFORE the update (SARSA's A', the greedy bootstrap); 0 = none
 
 vars == <<pc, phase, ep, t, last, cur, cond, pend, res, stored, produced,
-          step, executed, epsDone, updates, returned>>
+          step, executed, epsDone, updates, returned, row, choice, carried>>
 
 NoTag == <<-1, -1>>
 NoRes == [obs |-> NoTag, r |-> 0, term |-> FALSE, trunc |-> FALSE]
@@ -37,29 +42,47 @@ StoreMatches(rec, before, act, rs) == CStoreMatches(rec, before, act, rs)
 MayLearn(s) == CMayLearn(s, WarmLearn)
 ReturnMatches(ret, ex) == CReturnMatches(ret, Start, ex)
 MayContinue(done) == CMayContinue(done, EpLimit)
+IsMaximiser(r, a) == CIsMaximiser(r, a)
+AnyRow == CHOOSE r \in Rows : TRUE
+(* values for the constant Rows (cfg: Rows <- RowsOne / RowsTie): one fixed row, or two actions with a tie *)
+RowsOne == {<<0, 1>>}
+RowsTie == {<<0, 1>>, <<1, 0>>, <<1, 1>>}
 
 ----------------------------------------------------------------------------
 Init == /\ pc = "reset" /\ phase = "idle" /\ ep = -1 /\ t = 0
         /\ last = NoTag /\ cur = NoTag /\ cond = NoTag /\ pend = "none" /\ res = NoRes
         /\ stored = <<>> /\ produced = <<>>
         /\ step = Start /\ executed = 0 /\ epsDone = 0 /\ updates = <<>> /\ returned = -1
+        /\ row = AnyRow /\ choice = 0 /\ carried = 0
 
 Reset == /\ pc = "reset"
          /\ phase' = "running" /\ ep' = ep + 1 /\ t' = 0
          /\ last' = <<ep + 1, 0>> /\ cur' = <<ep + 1, 0>>
          /\ pc' = "act"
-         /\ UNCHANGED <<cond, pend, res, stored, produced, step, executed, epsDone, updates, returned>>
+         /\ row' \in Rows /\ carried' = 0
+         /\ UNCHANGED <<cond, pend, res, stored, produced, step, executed, epsDone, updates, returned, choice>>
 
 (* the loop condition *)
 Done == step >= Budget
 
 Explore == /\ pc = "act" /\ ~Done /\ step < WarmAct
-           /\ pend' = "explore" /\ cond' = NoTag /\ pc' = "env"
-           /\ UNCHANGED <<phase, ep, t, last, cur, res, stored, produced, step, executed, epsDone, updates, returned>>
+           /\ pend' = "explore" /\ cond' = NoTag /\ pc' = "env" /\ choice' = 0
+           /\ UNCHANGED <<phase, ep, t, last, cur, res, stored, produced, step, executed, epsDone, updates, returned, row, carried>>
 
+(* act greedily: evaluate the CURRENT estimate at the current observation, now *)
 PolicyAct == /\ pc = "act" /\ ~Done /\ step >= WarmAct
              /\ pend' = "policy" /\ cond' = cur /\ pc' = "env"
-             /\ UNCHANGED <<phase, ep, t, last, cur, res, stored, produced, step, executed, epsDone, updates, returned>>
+             /\ \E a \in 1..Len(row) : IsMaximiser(row, a) /\ choice' = a
+             /\ UNCHANGED <<phase, ep, t, last, cur, res, stored, produced, step, executed, epsDone, updates, returned, row, carried>>
+
+(* deviation: the loop does not evaluate the estimate again but executes the choice it made at the successor
+   before the update (the on-policy "carry A' forward" formulation); the update in between may have changed
+   the values of the very observation the agent is still in (self-transition) *)
+ActOnStaleChoice ==
+             /\ "stale_choice" \in DEV
+             /\ pc = "act" /\ ~Done /\ step >= WarmAct /\ carried # 0
+             /\ pend' = "policy" /\ cond' = cur /\ pc' = "env" /\ choice' = carried
+             /\ UNCHANGED <<phase, ep, t, last, cur, res, stored, produced, step, executed, epsDone, updates, returned, row, carried>>
 
 EnvStep(outcome) ==
   /\ pc = "env"
@@ -71,18 +94,24 @@ EnvStep(outcome) ==
         /\ phase' = IF outcome = "cont" THEN phase ELSE "ended"
         /\ produced' = Append(produced, [obs |-> last, act |-> pend, r |-> r.r, next |-> r.obs, term |-> r.term])
   /\ executed' = executed + 1 /\ pc' = "store"
-  /\ UNCHANGED <<ep, cur, cond, pend, stored, step, epsDone, updates, returned>>
+  /\ row' \in Rows   \* the successor may be any observation, also the same one again (self-transition)
+  /\ UNCHANGED <<ep, cur, cond, pend, stored, step, epsDone, updates, returned, choice, carried>>
 
 Store == /\ pc = "store"
          /\ stored' = Append(stored, [obs |-> cur, act |-> pend, r |-> res.r, next |-> res.obs,
                                       term |-> IF "store_done_flag" \in DEV THEN (res.term \/ res.trunc) ELSE res.term])
          /\ pc' = "learn"
-         /\ UNCHANGED <<phase, ep, t, last, cur, cond, pend, res, produced, step, executed, epsDone, updates, returned>>
+         (* the bootstrap choice at the successor, on the estimate as it is before the update (only tracked when
+            the deviation that re-uses it is enabled) *)
+         /\ \E a \in (IF "stale_choice" \in DEV THEN CMaximisers(row) ELSE {0}) : carried' = a
+         /\ UNCHANGED <<phase, ep, t, last, cur, cond, pend, res, produced, step, executed, epsDone, updates, returned, row, choice>>
 
 Learn == /\ pc = "learn"
          /\ updates' = IF MayLearn(step) \/ "learn_early" \in DEV THEN Append(updates, step) ELSE updates
          /\ pc' = "advance"
-         /\ UNCHANGED <<phase, ep, t, last, cur, cond, pend, res, stored, produced, step, executed, epsDone, returned>>
+         (* an update may change the values at the observation the agent is in (it does when the step was a self-transition) *)
+         /\ row' \in (IF MayLearn(step) \/ "learn_early" \in DEV THEN Rows ELSE {row})
+         /\ UNCHANGED <<phase, ep, t, last, cur, cond, pend, res, stored, produced, step, executed, epsDone, returned, choice, carried>>
 
 (* end of the loop body: reset after an ended episode, else carry the successor *)
 Advance ==
@@ -93,25 +122,27 @@ Advance ==
              THEN /\ pc' = "return"
                   (* deviation: break before the step counter is advanced *)
                   /\ step' = IF "break_before_count" \in DEV THEN step ELSE step + 1
-                  /\ UNCHANGED <<phase, ep, t, last, cur>>
+                  /\ UNCHANGED <<phase, ep, t, last, cur, row, carried>>
              ELSE IF "step_after_end" \in DEV
              THEN (* deviation: the loop goes on without resetting the ended environment *)
                   /\ cur' = res.obs /\ step' = step + 1 /\ pc' = "act"
-                  /\ UNCHANGED <<phase, ep, t, last>>
+                  /\ UNCHANGED <<phase, ep, t, last, row, carried>>
              ELSE /\ phase' = "running" /\ ep' = ep + 1 /\ t' = 0 /\ last' = <<ep + 1, 0>>
                   (* deviation: the successor overwrites the reset observation *)
                   /\ cur' = IF "stale_after_reset" \in DEV THEN res.obs ELSE <<ep + 1, 0>>
                   /\ step' = step + 1 /\ pc' = "act"
+                  (* values at the reset observation; a choice made for the old episode's successor is dropped *)
+                  /\ row' \in Rows /\ carried' = 0
      ELSE /\ cur' = res.obs /\ step' = step + 1 /\ pc' = "act"
-          /\ UNCHANGED <<phase, ep, t, last, epsDone>>
-  /\ UNCHANGED <<cond, pend, res, stored, produced, executed, updates, returned>>
+          /\ UNCHANGED <<phase, ep, t, last, epsDone, row, carried>>
+  /\ UNCHANGED <<cond, pend, res, stored, produced, executed, updates, returned, choice>>
 
 Return == /\ (pc = "return" \/ (pc = "act" /\ Done))
           /\ returned' = IF "return_plus_one" \in DEV THEN step + 1 ELSE step
           /\ pc' = "done"
-          /\ UNCHANGED <<phase, ep, t, last, cur, cond, pend, res, stored, produced, step, executed, epsDone, updates>>
+          /\ UNCHANGED <<phase, ep, t, last, cur, cond, pend, res, stored, produced, step, executed, epsDone, updates, row, choice, carried>>
 
-Next == Reset \/ Explore \/ PolicyAct \/ (\E o \in {"cont", "term", "trunc"} : EnvStep(o))
+Next == Reset \/ Explore \/ PolicyAct \/ ActOnStaleChoice \/ (\E o \in {"cont", "term", "trunc"} : EnvStep(o))
         \/ Store \/ Learn \/ Advance \/ Return
 Spec == Init /\ [][Next]_vars
 ----------------------------------------------------------------------------
@@ -128,4 +159,7 @@ ReturnedCount == pc = "done" => ReturnMatches(returned, executed)
 NoStepAfterEnd == [][(executed' = executed + 1) => CanStep(phase)]_vars
 (* warm-up exploration discipline (C13 loop clause): policy actions only after the warm-up *)
 ExploreOnlyInWarmup == (pc = "env" /\ pend = "explore") => step < WarmAct
+(* C13 loop clause: outside the warm-up (exploration probability 0 in this model) the action about to be executed
+   is a maximiser of the CURRENT estimate at the observation the environment returned last *)
+ExecutedActionGreedy == (pc = "env" /\ pend = "policy") => IsMaximiser(row, choice)
 =============================================================================
